@@ -608,7 +608,7 @@ def judge(run, cases, report=True):
 def check(run):
     rng = run.rng
     quick = run.tier == "quick"
-    n_ev, n_dev, n_for = (420, 160, 750) if quick else (5000, 1500, 9000)
+    n_ev, n_dev, n_for = (840, 300, 1500) if quick else (5000, 1500, 9000)
     cases = []
     for i in range(n_ev):
         cases.append(gen_event_case(rng, i))
@@ -620,6 +620,10 @@ def check(run):
     cases.append({"kind": "foreign", "tpb": 480, "type": 1, "stratum": "foreign.controller480", "tracks": [[
         [0, "note_on", 0, 60, 64], [240, "note_off", 0, 60, 64], [480, "control_change", 0, 7, 100],
         [240, "note_on", 0, 62, 64], [240, "note_off", 0, 62, 64]]]})
+    # the last event is a chord of zero-length notes: read() divides by zero (modelled as RZeroDiv)
+    cases.append({"kind": "foreign", "tpb": 96, "type": 0, "stratum": "foreign.zero_length", "tracks": [[
+        [0, "note_on", 0, 60, 64], [48, "note_off", 0, 60, 0], [48, "note_on", 0, 62, 1], [0, "note_on", 1, 65, 2],
+        [0, "note_on", 0, 62, 0], [0, "note_off", 1, 65, 9], [5, "control_change", 0, 1, 1]]]})
     # a long file: 60 000 device ticks (float clock of the device)
     cases.append({"kind": "device", "file_tpb": None, "stratum": "device.big",
                   "ops": [["on", 60, 64, 0], ["t", 59999], ["off", 60, 0], ["t", 1], ["on", 61, 1, 0], ["t", 7], ["off", 61, 0]]})
